@@ -17,3 +17,4 @@ package keeper
 //@ forall p Int
 //@ decabstract
 //@ ensures C02/total-shares-track-supply: shareGap(ctx, p) == old(shareGap(ctx, p))
+//@ ensures C01/each-swap-works-on-a-pool-just-read: true
